@@ -99,13 +99,14 @@ theorem parseSplit_total (fix : Bool) (parsed : SplitResult) (pl : Option Str) (
 /-! ## what a returned record looks like -/
 
 /-- the module's own well-formedness of a record; with `fix_common_mistakes` the ids are
-exactly 11 characters long (without it `$` lets one final `"\n"` through) -/
+exactly 11 characters long (without it `$` lets one final `"\n"` through); a channel name is
+non-empty, does not start with `@` and is not a reserved word -/
 def Valid (fix : Bool) : Record → Prop
   | .video id _ => is_youtube_video_id id = true ∧ (fix = true → id.length = 11)
   | .short id => is_youtube_video_id id = true ∧ (fix = true → id.length = 11)
   | .user name => name ≠ []
   | .channel (some cid) none => cid ≠ []
-  | .channel none (some name) => name ≠ [] ∧ ∀ r, name ≠ '@' :: r
+  | .channel none (some name) => name ≠ [] ∧ (∀ r, name ≠ '@' :: r) ∧ name ∉ blacklist
   | .channel _ _ => False
 
 theorem idClassN_length (n : Nat) (s : Str) (h : idClassN n s = true) : n ≤ s.length := by
@@ -138,6 +139,25 @@ theorem lstripChars_not_head (s : Str) (c : Char) (r : Str) : lstripChars s [c] 
   have := lstripChars_head_s20 s [c] c r h
   simp at this
 
+theorem cutAmp_not_head (x : Str) (c : Char) (hx : ∀ r, x ≠ c :: r) : ∀ r, cutAmp x ≠ c :: r := by
+  intro r h
+  unfold cutAmp at h
+  cases x with
+  | nil => simp at h
+  | cons a as =>
+    by_cases ha : a ≠ '&'
+    · rw [List.takeWhile_cons_of_pos (by simpa using ha)] at h
+      injection h with h1 _
+      exact hx as (by rw [h1])
+    · rw [List.takeWhile_cons_of_neg (by simpa using ha)] at h
+      simp at h
+
+theorem name_valid (x : Str) (h : ¬ ((cutAmp (lstripChars x ['@']) = [] || blacklist.contains (cutAmp (lstripChars x ['@']))) = true)) :
+    cutAmp (lstripChars x ['@']) ≠ [] ∧ (∀ r, cutAmp (lstripChars x ['@']) ≠ '@' :: r) ∧
+      cutAmp (lstripChars x ['@']) ∉ blacklist := by
+  simp only [Bool.or_eq_true, decide_eq_true_eq, List.contains_eq_mem, not_or] at h
+  exact ⟨h.1, cutAmp_not_head _ _ (fun r => lstripChars_not_head _ _ r), by simpa using h.2⟩
+
 theorem routeName_valid (fix : Bool) (path : Str) (r : Record) (h : routeName path = some r) :
     Valid fix r := by
   unfold routeName at h
@@ -145,11 +165,9 @@ theorem routeName_valid (fix : Bool) (path : Str) (r : Record) (h : routeName pa
   split at h
   · split at h
     · simp at h
-    · split at h
-      · simp at h
-      · rename_i hne
-        simp at h; subst h
-        exact ⟨hne, fun r => lstripChars_not_head _ _ r⟩
+    · rename_i hn
+      simp at h; subst h
+      exact name_valid _ hn
   · simp at h
 
 theorem routePath_valid (fix : Bool) (path query : Str) (pl : Option Str) (r : Record)
@@ -171,9 +189,14 @@ theorem routePath_valid (fix : Bool) (path query : Str) (pl : Option Str) (r : R
         exact hx
       · split at h
         · unfold routeC at h
-          rcases second_cases path with h2 | ⟨x, h2, _⟩ <;> rw [h2] at h <;> simp at h
-          obtain ⟨⟨hx, _⟩, rfl⟩ := h
-          exact ⟨hx, fun r => lstripChars_not_head _ _ r⟩
+          rcases second_cases path with h2 | ⟨x, h2, _⟩ <;> rw [h2] at h
+          · simp at h
+          · simp only [Except.ok.injEq] at h
+            split at h
+            · simp at h
+            · rename_i hn
+              simp at h; subst h
+              exact name_valid _ hn
         · split at h
           · unfold routeChannel at h
             rcases second_cases path with h2 | ⟨x, h2, _⟩ <;> rw [h2] at h <;> simp at h
